@@ -3,6 +3,7 @@ import SkyllhModel.Model.LLH
 import SkyllhModel.Model.Grad
 import SkyllhModel.Model.ParamLayout
 import SkyllhModel.Model.GradState
+import SkyllhModel.Model.GradMapR7
 open Proto LLH Grad ParamLayout
 
 /-  requests (floats as IEEE bit patterns, ints decimal):
@@ -22,6 +23,14 @@ open Proto LLH Grad ParamLayout
       stack <opa> <ns> <nFit> <nsIdx> <K> <gp: K*2 ints> <W: K> <J> then per dataset:
             <N> <parA 0|1> <parB 0|1> <Y: K> <dY: K*2> <nSel> <leaves: nSel*K*4 = rA,rB,dA,dB>
           -> <value> <grads> <nsgrad2>
+      round 7 (Model/GradMapR7.lean):
+      vmask <nSrc> <src_mask bits> <src idx per value>      -> <code form bits | ERR> <spec form bits>
+      igrad <nSrc> <src idx per value> <p> then per local parameter <gpidx column | x> <grads>
+          -> <i3Gradient | ERR> <contributes 0|1> <branch of every iteration that is reached>
+      sgrads <nSrc> <src idx per value> <nFit> then per local parameter <gpidx column | x> <grads>
+          -> `|`-separated <key>=<grad> of the dictionary of SignalMultiDimGridPDFSet.get_pd | ERR
+      ygrad <gpidx column> <accept bits> <exp(log spline): K> <dlog: K>
+          -> <values> <keys> <`|`-separated rows> <`|`-separated spec rows for p = 0..max key+1>
 -/
 
 def chunks {α} (n : Nat) (xs : List α) : List (List α) :=
@@ -79,8 +88,51 @@ def hstep (m : GradState.Multi Float) (line : String) : Option (GradState.Multi 
         | .error .notEvaluated => "ERR:notEvaluated")
   | _ => none
 
+def parsePars : List String → List (GradMap.LocalPar Float)
+  | c :: g :: rest => { gp := if c == "x" then none else some (pList pI c), grads := pList pF g } :: parsePars rest
+  | _ => []
+
+def branchName : GradMap.Branch → String
+  | .noField => "noField" | .noSource => "noSource" | .allSources => "all" | .someSources => "some"
+  | .indexError => "indexError"
+
+/-- the branches of the iterations the loop reaches (it stops at the first `allSources` / `indexError`) -/
+def reachedBranches (nSrc p : Nat) : List (GradMap.LocalPar Float) → List String
+  | [] => []
+  | lp :: rest =>
+    let b := GradMap.branchOf nSrc p lp
+    branchName b :: (if b == .allSources || b == .indexError then [] else reachedBranches nSrc p rest)
+
+def fRows (rows : List String) : String := if rows.isEmpty then "-" else "|".intercalate rows
+
 def answer (line : String) : String :=
   match tokens line with
+  | ["vmask", n, m, si] =>
+      let sm := pList pB m
+      let idx := pList pN si
+      let code := match GradMap.valuesMaskCode (pN n) sm idx with
+        | some r => fListD fB r
+        | none => "ERR"
+      s!"{code} {fListD fB (GradMap.valuesMaskSpec sm idx)}"
+  | "igrad" :: n :: si :: p :: rest =>
+      let pars := parsePars rest
+      let idx := pList pN si
+      let br := fListD id (reachedBranches (pN n) (pN p) pars)
+      match GradMap.interpLoop (pN n) idx (pN p) pars (GradMap.zeros idx.length) false with
+      | some (g, c) => s!"{fListD fF g} {fB c} {br}"
+      | none => s!"ERR 0 {br}"
+  | "sgrads" :: n :: si :: nf :: rest =>
+      match GradMap.sigGrads (pN n) (pList pN si) (pN nf) (parsePars rest) with
+      | some d => fRows (d.map fun kv => s!"{kv.1}={fListD fF kv.2}")
+      | none => "ERR"
+  | ["ygrad", c, a, y, dl] =>
+      let col := pList pI c
+      let acc := pList pB a
+      let Y := GradMap.yieldValues acc (pList pF y)
+      let d := GradMap.yieldGradsCode col acc Y (pList pF dl)
+      let top := ((GradMap.yieldKeys col).foldl max 0).toNat + 2
+      let spec := (List.range top).map fun p => fListD fF (GradMap.yieldSpecRow col acc Y (pList pF dl) p)
+      s!"{fListD fF Y} {fInts (d.map (·.1))} {fRows (d.map fun kv => fListD fF kv.2)} {fRows spec}"
   | ["layout", l, k, nn] =>
       let L := parseLayout l
       let K := pN k
